@@ -480,7 +480,7 @@ theorem rollback_inv {c : Conf} {pre : Bytes} {st : HState} (h : WInv c pre st) 
     have hnone : st.statusSent = none := by simpa using hn
     refine ⟨h.notDone, h.unsent, h.sent, fun ht => ?_⟩
     have : st.headersSent = none := (h.unsent hnone).1
-    simp [this, truthy] at ht
+    simp [this] at ht
   · simp only [hn, Bool.false_eq_true, if_false]; exact h
 
 /-- **Headers exactly once, before the first body byte; every body byte inside exactly one frame, in
@@ -529,10 +529,10 @@ theorem run_wsgi_wire_structure (c : Conf) (pre : Bytes) (expect : Bool) (a fb :
   · obtain ⟨h, e1, e2, e3⟩ := hf.sent s hs
     exact ⟨h, e1, e2, by rw [hw]; exact e3⟩
 
-/-- an application that sets the status twice before writing, writes an empty and a non-empty piece
-and yields another one, on HTTP/1.1 without Content-Length -/
+/-- an application that replaces the status through `exc_info` before writing, writes an empty and a
+non-empty piece and yields another one, on HTTP/1.1 without Content-Length -/
 example : (runHandler ⟨"HTTP/1.1".toList, [], false⟩ [] false
-    { call := [.start "200 OK".toList [] false, .start "201 Created".toList [("A".toList, "1".toList)] false,
+    { call := [.start "200 OK".toList [] false, .start "201 Created".toList [("A".toList, "1".toList)] true,
                .emit [], .emit [97]], iter := [.emit [98, 99]] } { call := [] }).wire
     = strBytes "HTTP/1.1 201 Created\r\nA: 1\r\nTransfer-Encoding: chunked\r\nConnection: close\r\n\r\n1\r\na\r\n2\r\nbc\r\n0\r\n\r\n".toList := by
   decide +kernel
@@ -578,15 +578,16 @@ example : (runHandler ⟨"HTTP/1.1".toList, [], false⟩ [] false
     { call := [.start "204 No Content".toList [("A".toList, "1".toList)] false] } { call := [] }).wire
     = strBytes "HTTP/1.1 204 No Content\r\nA: 1\r\nConnection: close\r\n\r\n".toList := by decide +kernel
 
-/-- **An error after the head is never papered over** (partial: the header list that was sent is not
-empty). If the application's run ends with an exception after a head with at least one header was
-sent, `execute(InternalServerError())` adds nothing — its `start_response` hits "Headers already set"
-— and no terminating chunk is written: the client of a chunked response sees a body that does not end
-(`dechunk_safety`: reading on raises OSError), the client of a Content-Length response a short body. -/
-theorem run_wsgi_error_after_head_partial (c : Conf) (pre : Bytes) (expect : Bool) (a fb : AppRun)
+/-- **An error after the head is never papered over** (full strength since fix bc55b83). If the
+application's run ends with an exception after a head was sent — with any header list, the empty one
+included — `execute(InternalServerError())` adds nothing (its `start_response` hits "Headers already
+set") and no terminating chunk is written: the client of a chunked response sees a body that does not
+end (`dechunk_safety`: reading on raises OSError), the client of a Content-Length response a short
+body. -/
+theorem run_wsgi_error_after_head (c : Conf) (pre : Bytes) (expect : Bool) (a fb : AppRun)
     (st1 : HState) (cl : Nat)
     (hex : execute c { wire := startWire pre expect } a = (st1, cl, true))
-    (hsent : st1.statusSent.isSome = true) (hne : truthy st1.headersSent = true)
+    (hsent : st1.statusSent.isSome = true)
     (s' : Str) (h' : List (Str × Str)) (rest : List Ev) (hfb : fb.call = .start s' h' false :: rest) :
     (runHandler c pre expect a fb).wire = st1.wire ∧ (runHandler c pre expect a fb).final.done = false ∧
     (runHandler c pre expect a fb).failed = true := by
@@ -594,10 +595,13 @@ theorem run_wsgi_error_after_head_partial (c : Conf) (pre : Bytes) (expect : Boo
   obtain ⟨_, hr, _⟩ := execute_spec _ a h0
   rw [hex] at hr
   have h1 := hr rfl
-  have hset : truthy st1.headersSet = true := by rw [h1.frozen hne]; exact hne
+  obtain ⟨s, hs⟩ := Option.isSome_iff_exists.mp hsent
+  obtain ⟨h, hh, _, _⟩ := h1.sent s hs
+  have hne : st1.headersSent.isSome = true := by rw [hh]; rfl
+  have hset : st1.headersSet.isSome = true := by rw [h1.frozen hne]; exact hne
   have hrb : rollback st1 = st1 := by
     unfold rollback
-    cases hs : st1.statusSent <;> simp [hs] at hsent ⊢
+    simp [hs]
   have hfbx : execute c st1 fb = (st1, 0, true) := by
     simp [execute, hfb, runEvs, step, hset]
   unfold runHandler finish
@@ -611,29 +615,18 @@ example : (runHandler ⟨"HTTP/1.1".toList, [], false⟩ [] false
     = strBytes "HTTP/1.1 200 OK\r\nA: 1\r\nTransfer-Encoding: chunked\r\nConnection: close\r\n\r\n1\r\na\r\n".toList := by
   decide +kernel
 
-/-- **Known finding F19c**: at full strength — "the terminating chunk is sent only when the
-application's iterable finished without error" — the statement is false. `start_response` and
-`execute` test the *truthiness* of `headers_set` / `headers_sent`, so an **empty** header list counts
-as "not set / not sent": after a chunked response with no headers has begun and the application then
-raises, `execute(InternalServerError())` is let through, the error page is appended to the body as
-one more chunk and the zero chunk is written. The client receives a well-formed, complete `200`
-response whose body is the partial output followed by the 500 page. -/
-theorem run_wsgi_error_after_head_full_false :
-    ¬ (∀ (c : Conf) (pre : Bytes) (expect : Bool) (a fb : AppRun) (st1 : HState) (cl : Nat),
-        execute c { wire := startWire pre expect } a = (st1, cl, true) → st1.statusSent.isSome = true →
-        (runHandler c pre expect a fb).final.done = false) := by
-  intro h
-  have := h ⟨"HTTP/1.1".toList, [], false⟩ [] false
-    { call := [.start "200 OK".toList [] false], iter := [.emit [97]], iterRaises := true }
-    { call := [.start "500 X".toList [("B".toList, "2".toList)] false], iter := [.emit [98]] }
-    _ _ rfl (by decide +kernel)
-  revert this
-  decide +kernel
-
-example : (runHandler ⟨"HTTP/1.1".toList, [], false⟩ [] false
-    { call := [.start "200 OK".toList [] false], iter := [.emit [97]], iterRaises := true }
-    { call := [.start "500 X".toList [("B".toList, "2".toList)] false], iter := [.emit [98]] }).wire
-    = strBytes "HTTP/1.1 200 OK\r\nTransfer-Encoding: chunked\r\nConnection: close\r\n\r\n1\r\na\r\n1\r\nb\r\n0\r\n\r\n".toList := by
+/-- **Regression for F19c (repaired by bc55b83)**: a response started with an **empty** header list
+whose application then raises is left unterminated like any other — before the repair the truthiness
+tests on `headers_set` / `headers_sent` let `execute(InternalServerError())` through, the error page
+was appended as one more chunk and the zero chunk written (`…1\r\na\r\n1\r\nb\r\n0\r\n\r\n`). -/
+theorem run_wsgi_empty_header_list_regression :
+    (runHandler ⟨"HTTP/1.1".toList, [], false⟩ [] false
+      { call := [.start "200 OK".toList [] false], iter := [.emit [97]], iterRaises := true }
+      { call := [.start "500 X".toList [("B".toList, "2".toList)] false], iter := [.emit [98]] }).wire
+      = strBytes "HTTP/1.1 200 OK\r\nTransfer-Encoding: chunked\r\nConnection: close\r\n\r\n1\r\na\r\n".toList ∧
+    (runHandler ⟨"HTTP/1.1".toList, [], false⟩ [] false
+      { call := [.start "200 OK".toList [] false], iter := [.emit [97]], iterRaises := true }
+      { call := [.start "500 X".toList [("B".toList, "2".toList)] false], iter := [.emit [98]] }).final.done = false := by
   decide +kernel
 
 /-- **An error before anything was sent gives the fallback response, whole**: the closure variables
@@ -691,7 +684,7 @@ theorem run_wsgi_close_once (c : Conf) (pre : Bytes) (expect : Bool) (a fb : App
     by_cases hi : (r2 || a.iterRaises) = true
     · cases hcl : a.closable <;> simp [hi]
     · simp only [hi, Bool.false_eq_true, if_false]
-      cases (if truthy st2.headersSent = true then some st2 else step c st2 (.emit [])) <;>
+      cases (if st2.headersSent.isSome = true then some st2 else step c st2 (.emit [])) <;>
         cases hcl : a.closable <;> simp
 
 /-! ### structure of `run_wsgi`'s source that the state machine transcribes (AST facts, every run) -/
@@ -701,9 +694,9 @@ open Wz.Gen.RunWsgiFacts in
 `if self.headers.get("Expect", "").lower().strip() == "100-continue": write(b"HTTP/1.1 100 Continue\r\n\r\n")`
 (`continueLine`); `write` asserts that status and headers are set, sends status line and headers only
 inside `if status_sent is None:` and always ends the head with `Connection: close`; its only socket
-writes are the size line, `\r\n`, the data, `\r\n`; `start_response` tests `exc_info`, then the
-*truthiness* of `headers_sent` resp. `headers_set` (the empty-list quirk of F19c); `execute` calls the
-application outside its `try`, closes with `if not headers_sent: write(b"")` and
+writes are the size line, `\r\n`, the data, `\r\n`; `start_response` tests `exc_info`, then
+`headers_sent is not None` resp. `headers_set is not None` (identity tests since bc55b83, F19c); `execute`
+calls the application outside its `try`, closes with `if headers_sent is None: write(b"")` and
 `if chunk_response: write(b"0\r\n\r\n")` (`zeroChunk`), and calls `application_iter.close()` exactly
 in its `finally`; the error path rolls `status_set` / `headers_set` back only when nothing was sent and
 runs `execute(InternalServerError())` with every exception swallowed. -/
@@ -713,8 +706,8 @@ theorem run_wsgi_source_structure :
     writeAsserts = ["status_set is not None", "headers_set is not None", "isinstance(data, bytes)"] ∧
     sentOnlyWhenNone = true ∧ connectionCloseAlways = true ∧
     wfileWritesInWrite = ["b'\\r\\n'", "b'\\r\\n'", "data", "hex(len(data))[2:].encode()"] ∧
-    startResponseTests = ["exc_info", "headers_set", "headers_sent"] ∧
-    appCallOutsideTry = true ∧ closingWriteTest = "not headers_sent" ∧ terminatorTest = "chunk_response" ∧
+    startResponseTests = ["exc_info", "headers_set is not None", "headers_sent is not None"] ∧
+    appCallOutsideTry = true ∧ closingWriteTest = "headers_sent is None" ∧ terminatorTest = "chunk_response" ∧
     closeInFinally = true ∧ rollbackOnlyWhenUnsent = true ∧ fallbackIsInternalServerError = true ∧
     fallbackErrorsSwallowed = true := by
   decide +kernel
